@@ -39,6 +39,7 @@ type mxSpec struct {
 	pref uint16
 	mx   *actors.ScriptedMX
 	tlsa string // none, ee-match, ee-mismatch, ta-match, unusable, servfail
+	down bool   // nothing listens on this host (connection refused)
 }
 
 type rmsg struct {
@@ -129,7 +130,8 @@ func (w *world) gen() {
 			}
 		}
 		tlsa := []string{"none", "none", "ee-match", "ee-mismatch", "ta-match", "unusable", "servfail"}[s.T.Choose(st, 7)]
-		w.mxs = append(w.mxs, &mxSpec{host: host, pref: uint16(10 * (i + 1)), tlsa: tlsa, mx: &actors.ScriptedMX{Host: host, Plan: p, PKI: actors.SharedPKI()}})
+		down := nmx > 1 && s.T.Choose(st, 5) == 0
+		w.mxs = append(w.mxs, &mxSpec{host: host, pref: uint16(10 * (i + 1)), tlsa: tlsa, down: down, mx: &actors.ScriptedMX{Host: host, Plan: p, PKI: actors.SharedPKI()}})
 	}
 	switch s.T.Choose(st, 3) {
 	case 0:
@@ -407,6 +409,10 @@ func Run(s *simrt.Sim, a *harness.Args, r *harness.Result) {
 	var listeners []net.Listener
 	for _, m := range w.mxs {
 		m := m
+		if m.down {
+			s.Stat("fault_mx_down")
+			continue
+		}
 		l := w.net.Listen(m.host + ":25")
 		listeners = append(listeners, l)
 		s.Spawn("serve-"+m.host, nil, func() { m.mx.Serve(l) })
@@ -485,7 +491,7 @@ func (w *world) shape() string {
 	fmt.Fprintf(&sb, "sts=%v/%s/%v local=%v/%s/%s ovr=%v relax=%v lim=%d dnsfail=%v|", w.useSTS, w.stsMode, w.stsMX, w.useLocal, w.minTLS, w.minMX, w.override, w.relaxed, w.destLimit, w.dnsTempFail)
 	for _, m := range w.mxs {
 		p := m.mx.Plan
-		fmt.Fprintf(&sb, "[%s tls=%v/%v cert=%v rtls=%v tlsa=%s]", m.host, p.StartTLS, p.TLSFails, p.Cert, p.RequireTLS, m.tlsa)
+		fmt.Fprintf(&sb, "[%s down=%v tls=%v/%v cert=%v rtls=%v tlsa=%s]", m.host, m.down, p.StartTLS, p.TLSFails, p.Cert, p.RequireTLS, m.tlsa)
 	}
 	for _, m := range w.msgs {
 		fmt.Fprintf(&sb, "{%s r=%d rt=%v ov=%v q=%v gap=%v}", m.id, len(m.rcpts), m.requireTLS, m.tlsOverride, m.quarantine, m.gap)
